@@ -67,6 +67,8 @@ type Discipline[Type any] struct {
 	interrupter *time.Ticker
 
 	err chan error
+
+	verif verifState
 }
 
 func (opts Opts[Type]) isValid() error {
@@ -127,6 +129,8 @@ func New[Type any](opts Opts[Type]) (*Discipline[Type], error) {
 
 		err: make(chan error, 1),
 	}
+
+	dsc.verifBind()
 
 	go dsc.main()
 
@@ -198,14 +202,20 @@ func (dsc *Discipline[Type]) Err() <-chan error {
 }
 
 func (dsc *Discipline[Type]) main() {
+	defer dsc.verifAt("Exit", 0, false)
 	defer close(dsc.err)
 	defer close(dsc.output)
 	defer close(dsc.feedback)
 	defer dsc.interrupter.Stop()
 
+	dsc.verifAt("Start", 0, false)
+
 	if err := dsc.loop(); err != nil {
 		dsc.err <- err
+		dsc.verifAt("Err", 0, true)
 	}
+
+	dsc.verifAt("Closing", 0, false)
 }
 
 func (dsc *Discipline[Type]) loop() error {
@@ -214,8 +224,11 @@ func (dsc *Discipline[Type]) loop() error {
 	for {
 		processed, err := dsc.base()
 		if err != nil {
+			dsc.verifAt("Bad", 0, true)
 			return err
 		}
+
+		dsc.verifAt("RoundEnd", 0, processed != 0)
 
 		if processed == 0 {
 			if dsc.isDrainedInputs() {
@@ -226,17 +239,20 @@ func (dsc *Discipline[Type]) loop() error {
 		}
 
 		dsc.getLimitedFeedback()
+		dsc.verifAt("LimDone", 0, false)
 	}
 }
 
 func (dsc *Discipline[Type]) waitZeroActual() {
 	for !dsc.isZeroActual() {
 		dsc.decreaseActual(<-dsc.feedback)
+		dsc.verifAt("FbFinal", 0, false)
 	}
 }
 
 func (dsc *Discipline[Type]) getOneFeedback() {
 	dsc.decreaseActual(<-dsc.feedback)
+	dsc.verifAt("FbOne", 0, false)
 }
 
 func (dsc *Discipline[Type]) getLimitedFeedback() {
@@ -244,6 +260,7 @@ func (dsc *Discipline[Type]) getLimitedFeedback() {
 		select {
 		case priority := <-dsc.feedback:
 			dsc.decreaseActual(priority)
+			dsc.verifAt("FbLim", priority, false)
 		default:
 			return
 		}
@@ -284,6 +301,8 @@ func (dsc *Discipline[Type]) base() (uint, error) {
 		return processed, err
 	}
 
+	dsc.verifAt("Recalc", 0, proceed)
+
 	if !proceed {
 		return processed, nil
 	}
@@ -299,6 +318,8 @@ func (dsc *Discipline[Type]) waitCalcTactic() error {
 		if err != nil {
 			return err
 		}
+
+		dsc.verifAt("Calc", 0, proceed)
 
 		if proceed {
 			return nil
@@ -334,11 +355,13 @@ func (dsc *Discipline[Type]) io(priority uint) uint {
 		case item, opened := <-dsc.inputs[priority].Channel:
 			if !opened {
 				dsc.markInputAsDrained(priority)
+				dsc.verifAt("Drained", priority, false)
 				return processed
 			}
 
 			processed += dsc.send(item, priority)
 		default:
+			dsc.verifAt("PollEmpty", priority, false)
 			return processed
 		}
 	}
@@ -356,6 +379,7 @@ func (dsc *Discipline[Type]) iou(priority uint) uint {
 		case item, opened := <-dsc.inputs[priority].Channel:
 			if !opened {
 				dsc.markInputAsDrained(priority)
+				dsc.verifAt("Drained", priority, false)
 				return processed
 			}
 
@@ -363,6 +387,8 @@ func (dsc *Discipline[Type]) iou(priority uint) uint {
 
 			processed += dsc.send(item, priority)
 		case <-dsc.interrupter.C:
+			dsc.verifAt("PollTick", priority, interrupt)
+
 			if interrupt {
 				return processed
 			}
@@ -388,10 +414,13 @@ func (dsc *Discipline[Type]) send(item Type, priority uint) uint {
 		Item:     item,
 	}
 
+	dsc.verifAt("SendStart", priority, false)
+
 	dsc.output <- prioritized
 
 	dsc.decreaseTactic(priority)
 	dsc.increaseActual(priority)
+	dsc.verifAt("Send", priority, false)
 
 	return 1
 }
